@@ -36,6 +36,8 @@ type s35Shape struct {
 	cmd     int // 0 splice_null, 5 splice_insert, 6 time_signal
 
 	cancel, program, duration, immediate bool
+	noTime                               bool   // the command's splice_time has time_specified_flag 0 (encodings only)
+	stuffing                             int    // alignment_stuffing bytes between the descriptor loop and the CRC (encodings only)
 	compTimes                            []bool // component mode: time_specified per component (only read when !immediate)
 
 	descs []s35Desc
@@ -189,7 +191,7 @@ func (sh s35Shape) encode(obj string, vals map[string][]Bit) *s35X {
 	cmdStart := w.bytePos()
 	switch sh.cmd {
 	case 6:
-		spliceTime("pts", true)
+		spliceTime("pts", !sh.noTime)
 	case 5:
 		f("eventID", 32)
 		w.constBits(uint64(b2i(sh.cancel)), 1)
@@ -201,7 +203,7 @@ func (sh s35Shape) encode(obj string, vals map[string][]Bit) *s35X {
 			w.constBits(uint64(b2i(sh.immediate)), 1)
 			w.constBits(0xF, 4)
 			if sh.program && !sh.immediate {
-				spliceTime("pts", true)
+				spliceTime("pts", !sh.noTime)
 			}
 			if !sh.program {
 				w.constBits(uint64(len(sh.compTimes)), 8)
@@ -300,6 +302,9 @@ func (sh s35Shape) encode(obj string, vals map[string][]Bit) *s35X {
 		x.descLen = append(x.descLen, w.bytePos()-at)
 	}
 	w.patch(loopAt, uint64(w.bytePos()-loopStart), 16)
+	for i := 0; i < sh.stuffing; i++ {
+		w.constBits(0, 8) // the encoder under analysis zero-fills; SCTE 35 leaves the value open
+	}
 	x.crcAt = w.bytePos()
 	f("crc", 32)
 	x.secLen = w.bytePos() - x.sectionAt - 3
